@@ -105,8 +105,8 @@ CLAIMED = {
         note="the context-switch assembly and stack memory are exercised along generated behaviours, not proved; one open finding (FP control state not saved by the Linux context switch) is exercised by dedicated runs only",
         design="5/C12"),
     "C03": dict(
-        technique="TLA+ denotational spec SenderSem (completion-signal semantics of the adaptors) whose terms and denotations TLC enumerates (SenderCases) and replays on the real adaptors; fine-grained specs SharedStateImpl (split/ensure_started shared state) and WhenAllImpl (when_all operation state) model-checked by TLC; step-level TLC validation of the shared state's hooked steps (SharedStateStepTrace)",
-        text="model-based testing in the spec->implementation direction: TLC enumerates all 1228 sender terms up to depth 3 over value/error/stopped leaves and then/let_value/let_error/continues_on/ensure_started/split (1 and 2 consumers)/drop_operation_state/when_all with the set of completion signals the spec admits; every term is built from type-erased stages and run on the real adaptors with leaves completing inline, from another thread or on the pool, and the connected receiver must see exactly one signal, on an admitted channel, with the admitted payload, with every payload and error object destroyed exactly once; TLC proves on SharedStateImpl that a continuation added concurrently with the predecessor's completion is run exactly once under every interleaving (and that publishing the flag after the lock hand-shake loses it), the shared-state terms are re-run hundreds of times with the consumer's start swept across the predecessor's completion, when_all terms with two failing inputs thousands of times with simultaneous completions, and the hooked steps of the real shared state (flag, lock hand-shake, continuation store, deliveries) are validated by TLC as SharedStateImpl's steps in SharedStateImpl's order; the term split2r makes every consumer of a split recover the error it is handed",
+        technique="TLA+ denotational spec SenderSem (completion-signal semantics of the adaptors) whose terms and denotations TLC enumerates (SenderCases) and replays on the real adaptors; fine-grained specs SharedStateImpl (split/ensure_started shared state), WhenAllImpl (when_all operation state) and SyncWaitImpl (sync_wait's frame-local state on the binary semaphore) model-checked by TLC; step-level TLC validation of the shared state's hooked steps (SharedStateStepTrace)",
+        text="model-based testing in the spec->implementation direction: TLC enumerates all 1228 sender terms up to depth 3 over value/error/stopped leaves and then/let_value/let_error/continues_on/ensure_started/split (1 and 2 consumers)/drop_operation_state/when_all with the set of completion signals the spec admits; every term is built from type-erased stages and run on the real adaptors with leaves completing inline, from another thread or on the pool, and the connected receiver must see exactly one signal, on an admitted channel, with the admitted payload, with every payload and error object destroyed exactly once; TLC proves on SharedStateImpl that a continuation added concurrently with the predecessor's completion is run exactly once under every interleaving (and that publishing the flag after the lock hand-shake loses it), the shared-state terms are re-run hundreds of times with the consumer's start swept across the predecessor's completion, when_all terms with two failing inputs thousands of times with simultaneous completions, and the hooked steps of the real shared state (flag, lock hand-shake, continuation store, deliveries) are validated by TLC as SharedStateImpl's steps in SharedStateImpl's order; the term split2r makes every consumer of a split recover the error it is handed; TLC proves on SyncWaitImpl that the completing thread's last access to sync_wait's state is the unlock that lets the waiter through (value and stopped channel, inline or concurrent completion), that sync_wait returns the signalled channel, and that three variants (notify_one reporting 'woke one', a flag stored after release, unlock-resume-relock) touch the destroyed frame",
         note="sequential consistency in the model; schedules of the real adaptors are sampled; terms up to depth 3 with one value type; stop requests travelling upstream through stop tokens are not part of the terms",
         design="5/C03"),
 }
